@@ -491,6 +491,10 @@ func ToPairAlign(samIn, ref io.Reader, outpath string, wrap int, trimStart int, 
 		if len(header.Refs()) == 0 {
 			return errors.New("no reference sequence (@SQ line) in the sam header")
 		}
+		// the alignments are in the coordinates of the sequence the sam header describes
+		if header.Refs()[0].Len() != len(refSeq) {
+			return errors.New("the --reference sequence is not the length given in the sam header (@SQ LN)")
+		}
 	case err := <-cErr:
 		return err
 	}
